@@ -65,14 +65,14 @@ class CleanupTranslator:
                 yield lit
 
     def _compute_local_superseed(self, pred: Predicate, rule: AST) -> set[Mapping]:
-        local_superseed: set[Mapping] = set()
-        head_symbols: list[AST] = []
+        # every occurrence of pred in the head comes with its own conditions, only what all of them share is implied
+        per_head: list[tuple[AST, set[Mapping]]] = []
         assert rule.ast_type == ASTType.Rule
         head = rule.head
         if is_predicate(head):
             symbol = head.atom.symbol
             if pred == Predicate(symbol.name, len(symbol.arguments)):
-                head_symbols.append(symbol)
+                per_head.append((symbol, set()))
         elif head.ast_type == ASTType.HeadAggregate:
             for element in head.elements:
                 assert element.condition.ast_type == ASTType.ConditionalLiteral
@@ -82,8 +82,7 @@ class CleanupTranslator:
                     symbol = lit.atom.symbol
                     if pred != Predicate(symbol.name, len(symbol.arguments)):
                         continue
-                    head_symbols.append(symbol)
-                    local_superseed.update(set(x for x in self._create_mappings(symbol, element.condition.condition)))
+                    per_head.append((symbol, set(self._create_mappings(symbol, element.condition.condition))))
         elif head.ast_type in (ASTType.Aggregate, ASTType.Disjunction):
             for element in head.elements:
                 lit = element.literal
@@ -92,13 +91,14 @@ class CleanupTranslator:
                     symbol = lit.atom.symbol
                     if pred != Predicate(symbol.name, len(symbol.arguments)):
                         continue
-                    head_symbols.append(symbol)
-                    local_superseed.update(set(x for x in self._create_mappings(symbol, element.condition)))
+                    per_head.append((symbol, set(self._create_mappings(symbol, element.condition))))
         # add all body elements to all heads according to they variables
         body_literals = list(self._collect_top_level_body_symbols(rule.body))
-        for symbol in head_symbols:
-            local_superseed.update(set(x for x in self._create_mappings(symbol, body_literals)))
-        return local_superseed
+        local_superseed: Optional[set[Mapping]] = None
+        for symbol, mappings in per_head:
+            mappings.update(self._create_mappings(symbol, body_literals))
+            local_superseed = mappings if local_superseed is None else local_superseed & mappings
+        return local_superseed or set()
 
     @staticmethod
     def transitive_closure(a: set[Mapping]) -> set[Mapping]:
